@@ -182,6 +182,9 @@ func tryReplay(E *Engine, cfg *PropConfig, o *Obl, dir string) (string, bool, st
 		src = strings.ReplaceAll(src, w.ph, lit)
 	}
 	src = strings.ReplaceAll(src, "{{OBLIGATION}}", o.Name)
+	// MASKED is true when the failed goal was "post OR mask" of a recorded finding, i.e. the
+	// failure lies outside the recorded class and the scenario of the recorded class must be skipped
+	src = strings.ReplaceAll(src, "{{MASKED}}", fmt.Sprint(o.Masked))
 	name := sanitize(o.Name)
 	if len(name) > 100 {
 		name = name[:100]
